@@ -62,6 +62,8 @@ type Ctx struct {
 	// back in a pool.
 	lck  sync.Mutex
 	done bool
+	// answering is set once a frame of the response has arrived.
+	answering bool
 
 	// conn is the connection the request went out on, for the cancel timer.
 	conn atomic.Pointer[Conn]
@@ -202,6 +204,7 @@ func acquireCtx(req *fasthttp.Request, res *fasthttp.Response) *Ctx {
 	ctx.Response = res
 	ctx.streamID = 0
 	ctx.done = false
+	ctx.answering = false
 	ctx.resolved = false
 	ctx.finished = false
 	ctx.armed = false
